@@ -15,6 +15,7 @@ class Check:
     module = None         # trace spec module
     mc = []               # [(module, cfg)] design-level model checking configs
     mc_thorough = []      # additional ones for the thorough tier
+    proofs = []           # TLAPS modules (spec/proof) checked in the thorough tier
     assumptions = []
     trusted = []
     rule = ""
@@ -137,6 +138,10 @@ def run_check(check, tier, seed, replay=None):
                 mcstats["states"] += st["states"]
                 mcstats["distinct"] += st["distinct"]
                 mcruns.append({"cfg": cfg, **st})
+        proofruns = []
+        if not replay and tier == "thorough":
+            for mod in check.proofs:
+                proofruns.append(dict(core.tlaps(mod, pid + "-tlaps"), module=mod))
         # reproduce each failing group on a fresh harness process
         violations, known, reported = [], {}, 0
         seen_groups = set()
@@ -187,6 +192,7 @@ def run_check(check, tier, seed, replay=None):
             "trace_spec": check.module,
             "trace_states": stats["distinct"],
             "model_checking_runs": mcruns,
+            "tlaps_proofs": proofruns,
             "failing_events": len(bad),
             "beyond_property": {"judged_classes": sorted(check.extra_whys), "disagreeing_events": len(extra),
                                 "example": core.trim(extra[0], 400) if extra else ""},
